@@ -12,10 +12,15 @@
 (* where the property compares subnet membership.                             *)
 EXTENDS AddrConv, Json, CSV
 
-CONSTANTS K16,        \* lengths of the contiguous 16-byte masks to enumerate (subset of 0..128)
+CONSTANTS K16,        \* lengths of the contiguous 16-byte masks to enumerate (subset of 0..128);
+                      \* the lengths net.ParseCIDR gives an IPv4-mapped network (96..128) always are
           LemmaBits   \* IPv6 prefix lengths on which MembershipLemma is evaluated
 
 Rep(n, v) == [i \in 1..n |-> v]
+(* net.ParseCIDR("::ffff:a.b.c.d/k"), 96 <= k <= 128, yields a 16-byte mapped  *)
+(* IP with a 16-byte mask; an IPNet built from net.IPv4(...) or a 4-byte IP   *)
+(* with net.CIDRMask(k, 128) is the same shape for the conversions.           *)
+ParseCIDRKs == 96..128
 AllK16 == 0..128                  \* K16 for the thorough tier
 QuickK16 == {0, 1, 7, 8, 9, 16, 31, 32, 33, 63, 64, 65, 79, 80, 81, 88, 95, 96, 97, 100, 104, 112, 119,
              120, 121, 127, 128}  \* K16 for the quick tier
@@ -55,7 +60,7 @@ WrongLens == {1, 3, 5, 8, 12, 15, 17, 20}
 WrongLen == UNION {{CIDRMask(k, n) : k \in {0, 1, 8, 24, 32, 8 * n - 1, 8 * n} \cap 0..(8 * n)}
                    \cup {[Rep(n, 255) EXCEPT ![1] = 254], [Rep(n, 0) EXCEPT ![n] = 1]} : n \in WrongLens}
 Masks == {NilSeq, Mk(<<>>)}
-         \cup {Mk(CIDRMask(k, 4)) : k \in 0..32} \cup {Mk(CIDRMask(k, 16)) : k \in K16}
+         \cup {Mk(CIDRMask(k, 4)) : k \in 0..32} \cup {Mk(CIDRMask(k, 16)) : k \in K16 \cup ParseCIDRKs}
          \cup {Mk(b) : b \in Holes4 \cup Holes16 \cup WrongLen}
 
 Kinds == {"tcp", "udp", "apcustom", "ip", "custom", "niltcp", "niludp"}
@@ -99,6 +104,8 @@ PrefixLemma == st.t = "net" =>
     /\ \A q \in {<<P4, D4>>, <<P6, D6>>, <<PN, DN>>} :
          /\ PrefixMeets(q[2], q[1], q[1])
          /\ (q[2] = "accept") = MembershipCompared(st.ip, st.mask, q[1])
+    \* the model of the code never returns a mapped result from the NoMapped variant
+    /\ PrefixMeetsNoMapped(DN, PN, st.ip, PN)
 (* Spec-level membership at the real widths: on the single-bit flips of the   *)
 (* address (and the address itself) first-bits-equal and the model of         *)
 (* net.IPNet.Contains agree wherever the property compares them.              *)
@@ -112,13 +119,13 @@ MembershipLemma == st.t = "net" =>
                 ProbeCompared(st.ip, p, x) =>
                     PrefixContains(p.b, p.bits, x) = IPNetContains(st.ip, st.mask, x)
 
-Cmp(p, d) == [must |-> d, cmp |-> MembershipCompared(st.ip, st.mask, p),
+Cmp(p, d) == [must |-> d, v4 |-> Has4(st.ip), cmp |-> MembershipCompared(st.ip, st.mask, p),
               skip4in6 |-> p.ok /\ p.fam = "v6" /\ ~NetIsV4(st.ip)]
 Gl == GlobalsWithValue(st.ip.b)
 Out == CASE st.t = "ip"  -> [t |-> "ip", ip |-> st.ip, globals |-> Gl, r4 |-> R4, r6 |-> R6, rn |-> RN]
          [] st.t = "net" -> [t |-> "net", ip |-> st.ip, globals |-> Gl, mask |-> st.mask,
                              p4 |-> P4, p6 |-> P6, pn |-> PN, c4 |-> Cmp(P4, D4), c6 |-> Cmp(P6, D6), cn |-> Cmp(PN, DN)]
          [] st.t = "na"  -> [t |-> "na", ip |-> st.ip, globals |-> Gl, kind |-> st.kind, zone |-> st.zone, port |-> st.port,
-                             ap |-> AP, must |-> AddrPortDemand(st.kind, st.ip)]
+                             ap |-> AP, must |-> AddrPortDemand(st.kind, st.ip), v4 |-> Has4(st.ip)]
 Emit == CSVWrite("%1$s", <<ToJson(Out)>>, "conv_vectors.ndjson")
 =============================================================================
